@@ -6,7 +6,8 @@
    every live gate's equation holds.  [Inv x v G] = sat + every Zero/One
    annotation of a wire is right for v + cc.ZeroWire()/cc.OneWire() exist. *)
 From Coq Require Import List Bool Arith.
-From Mpc Require Import Circuit.Circuit Circuit.Passes Circuit.PassesProof.
+From Mpc Require Import Circuit.Circuit Circuit.Passes Circuit.PassesProof Circuit.PassesBFS
+  Circuit.PassesIO Circuit.PassesExamples.
 Import ListNotations.
 
 (* For every freshly built graph (gates in dependency order, single
@@ -73,32 +74,77 @@ Theorem C09_gmw_sort :
 Proof. exact emission_ok_sorted. Qed.
 Print Assumptions C09_gmw_sort.
 
-(* Compile for both targets, given that its BFS order is such an emission. *)
+(* Compile's own traversal (input wires, FIFO queue of ready gates, outputs
+   last), for every graph satisfying [cwf] (unassigned/unvisited, inputs and
+   outputs distinct and flagged correctly, output-gate lists contain every
+   consumer, output wires not consumed, one producer per wire, outputs
+   computable from the inputs): the assigned order with the assigned ids is a
+   dependency-respecting emission, and Gate.Level grows along dependencies. *)
+Theorem C09_compile_emission :
+  forall G, cwf G ->
+    let st := compile_assign G in
+    emission_ok (cg st) (id_of (cg st)) (cnext st) (casg st) /\
+    levels_ok (cg st) (casg st).
+Proof. exact (fun G CW => conj (compile_emission_ok G CW) (compile_levels_ok G CW)). Qed.
+Print Assumptions C09_compile_emission.
+
+(* Compile for both targets, every [cwf] graph, every input and every
+   satisfying valuation: Circuit.Compute of the compiled circuit yields the
+   valuation's output bits. *)
 Theorem C09_compile :
   forall t G x v,
-    let st := compile_assign G in
-    emission_ok (cg st) (id_of (cg st)) (cnext st) (casg st) ->
-    (t = GMW -> levels_ok (cg st) (casg st)) ->
-    sat G x v -> length x = length (gins G) ->
+    cwf G -> sat G x v -> length x = length (gins G) ->
     eval_plain (compile t G) x = map v (gouts G).
-Proof. exact compile_correct. Qed.
+Proof. exact compile_correct_cwf. Qed.
 Print Assumptions C09_compile.
 
-(* For all prune flags, all targets, every freshly built graph and every
-   input: the circuit produced by the pipeline of CompileCircuit computes the
-   meaning of the graph — under the explicit structural side conditions listed
-   in PassesProof.v (Part 5). *)
+(* Compile alone on every freshly built graph (wfg + the bookkeeping wfb that
+   the builder API leaves behind), both targets, every input: the compiled
+   circuit computes the graph's meaning.  No further hypothesis. *)
+Theorem C09_compile_fresh :
+  forall t G x, wfg G -> wfb G -> length x = length (gins G) ->
+    eval_plain (compile t G) x = graph_eval G x.
+Proof. exact compile_fresh_correct. Qed.
+Print Assumptions C09_compile_fresh.
+
+(* ConstPropagate keeps every wire id of live gates, inputs and constants in
+   range, for every freshly built graph; and no pass touches cc.InputWires /
+   cc.OutputWires or shrinks the wire table. *)
+Theorem C09_ranges :
+  forall G, wfg G -> ranged G ->
+    ranged (const_propagate G) /\
+    forall p : bool, io_same G (optimize p G).
+Proof. exact (fun G WF R => conj (const_propagate_ranged G WF R) (fun p => io_optimize p G)). Qed.
+Print Assumptions C09_ranges.
+
+(* For all prune flags, all targets, every freshly built graph (wfg, wire ids
+   in range) and every input: the circuit produced by the pipeline of
+   CompileCircuit computes the meaning of the graph, PROVIDED (not derived
+   here; both follow from the fan-out bookkeeping invariant "NumOutputs >=
+   true use count, output-gate lists contain every consumer") that
+   ShortCircuitXORZero fires through exact producer links and that the
+   optimised graph satisfies Compile's precondition [cwf]. *)
 Theorem C09_options :
   forall (do_prune : bool) t G x,
-    wfg G -> length x = length (gins G) ->
-    let G1 := const_propagate G in
-    ranged G1 -> links_exact G1 (gorder G1) ->
-    (forall o, In o (gouts G) -> o < gnw G1) ->
-    let G3 := optimize do_prune G in
-    gins G3 = gins G -> gouts G3 = gouts G ->
-    let st := compile_assign G3 in
-    emission_ok (cg st) (id_of (cg st)) (cnext st) (casg st) ->
-    (t = GMW -> levels_ok (cg st) (casg st)) ->
+    wfg G -> ranged G -> (forall o, In o (gouts G) -> o < gnw G) ->
+    length x = length (gins G) ->
+    links_exact (const_propagate G) (gorder (const_propagate G)) ->
+    cwf (optimize do_prune G) ->
     eval_plain (pipeline do_prune t G) x = graph_eval G x.
-Proof. exact pipeline_correct. Qed.
+Proof. exact pipeline_correct_final. Qed.
 Print Assumptions C09_options.
+
+(* The hypotheses are inhabited: the example graph (constants, fan-out, an
+   XOR with zero, an OR with one, an unused gate) satisfies wfg, wfb and cwf,
+   Compile's result on it satisfies emission_ok and levels_ok, pruning leaves
+   dead gates behind, and all four configurations compute its meaning on all
+   inputs. *)
+Theorem C09_hypotheses_inhabited :
+  wfg ex_graph /\ wfb ex_graph /\ cwf ex_graph /\
+  (let st := compile_assign ex_graph in
+   emission_ok (cg st) (id_of (cg st)) (cnext st) (casg st) /\ levels_ok (cg st) (casg st)) /\
+  (let G3 := optimize true ex_graph in
+   existsb (fun g => ndead (gn G3 g)) (seq 0 (gnn G3)) = true /\
+   length (gorder G3) < length (gorder ex_graph) /\ gerr G3 = 0).
+Proof. exact (conj ex_wfg (conj ex_wfb (conj ex_cwf (conj ex_emission ex_dead_gates)))). Qed.
+Print Assumptions C09_hypotheses_inhabited.
